@@ -4,13 +4,13 @@
     field parameters are regenerated from /repo on every run and the table obligation re-checked; an
     arithmetic step that can overflow (the model marks it Panic, as the overflow-checks profile does)
     makes [C02_layouts_decode_safe] fail for the row concerned.
-    PARTIAL: "every floating-point field of a decoded message is finite" is not proved here (the float
-    path is shown panic free; finiteness of the Flocq value is covered by the correspondence and the
-    per-row sweep of the check driver only). *)
+    "Every floating-point field of a decoded message is finite" is [C02_finite] / [C02_message_finite]
+    (Proofs/DecodeFinite.v, from the per-row bounds of C08); a finite value is not a NaN, so the derived
+    PartialEq of the decoded message is reflexive on it. *)
 From Coq Require Import ZArith List Lia Bool.
 From RtcmModel Require Import Types BitIO Field Layout Frame Scan Message Top.
 From RtcmGen Require Import GenSignals GenLayouts GenMessages.
-From RtcmProofs Require Import ListZ FrameProofs ScanProofs DecodeTotal DecodeStream.
+From RtcmProofs Require Import ListZ FrameProofs ScanProofs BuildProofs DecodeTotal DecodeStream FieldProofs DecodeFinite.
 Import ListNotations.
 Open Scope Z_scope.
 
@@ -44,6 +44,31 @@ Proof. intros data. apply (stream_total _ _ _ _ _ messages C02_layouts_decode_sa
 Check C02_stream_total : forall data, bytes_ok data = true ->
   exists t l, iter_run data = Ok (t, l) /\ forall p f, In (p, f) l -> t_from_frame f <> Panic.
 
+(** table obligation: every field of every layout meets the round-trip side conditions of C08 (which bound
+    the magnitude of every intermediate float) *)
+Theorem C02_layouts_finite_ok : forallb (fun m => fin_ok (snd m)) messages = true.
+Proof. vm_cast_no_check (eq_refl true). Qed.
+
+(** every float inside a decoded body is finite *)
+Theorem C02_finite : forall n lay data off v off', In (n, lay) messages -> bytes_ok data = true -> 0 <= off ->
+  t_decode_frag lay data off = Ok (v, off') -> vfin v.
+Proof.
+  intros n lay data off v off' Hin Hb Ho H.
+  pose proof C02_layouts_finite_ok as H1. rewrite forallb_forall in H1. specialize (H1 _ Hin). cbn [snd] in H1.
+  pose proof C02_layouts_decode_safe as H2. rewrite forallb_forall in H2. specialize (H2 _ Hin). cbn [snd] in H2.
+  exact (decode_frag_vfin sig_table ssr_table_1059 ssr_table_1065 SAT_CAP_1059 SAT_CAP_1065 lay H1 H2 data off v off' Hb Ho H).
+Qed.
+
+Theorem C02_message_finite : forall f n v, bytes_ok (fr_data f) = true -> t_from_frame f = Ok (MTyped n v) -> vfin v.
+Proof.
+  intros f n v Hb H. unfold t_from_frame, from_frame in H.
+  destruct (fr_number f) as [k|]; [|discriminate].
+  destruct (lookup k messages) as [lay|] eqn:Hlk; [|discriminate].
+  destruct (decode_frag sig_table ssr_table_1059 ssr_table_1065 SAT_CAP_1059 SAT_CAP_1065 lay (fr_data f) 12) as [[v' o]|e|] eqn:D; try discriminate.
+  inversion H; subst. eapply (C02_finite n lay); [apply lookup_In; exact Hlk|exact Hb| |exact D]. lia.
+Qed.
+Check C02_message_finite : forall f n v, bytes_ok (fr_data f) = true -> t_from_frame f = Ok (MTyped n v) -> vfin v.
+
 (** non-vacuity: a hostile 1077 frame (all-ones masks: 64 x 32 cells) is Corrupt, not a panic *)
 Example C02_example :
   t_decode_bytes (mkframe 0 ([67; 80] ++ repeat 255 40)) = Ok MCorrupt.
@@ -54,3 +79,6 @@ Print Assumptions C02_layout_total.
 Print Assumptions C02_outcomes.
 Print Assumptions C02_decode_bytes_total.
 Print Assumptions C02_stream_total.
+Print Assumptions C02_layouts_finite_ok.
+Print Assumptions C02_finite.
+Print Assumptions C02_message_finite.
